@@ -8,6 +8,7 @@ under the seed of this process (suite T4)."""
 from __future__ import annotations
 
 import json
+import os
 import subprocess
 from concurrent.futures import ThreadPoolExecutor
 
@@ -32,7 +33,7 @@ SPECIAL = [
 def run_seed(args):
     hashseed, recs = args
     p = subprocess.run(["/venv/bin/python", "-W", "ignore", "/verif/harness/c11_worker.py"], input=json.dumps(recs), capture_output=True,
-                       text=True, env=impl_env(hashseed, {"PYTHONPATH": "/repo:/verif/harness"}))
+                       text=True, env=impl_env(hashseed, {"PYTHONPATH": os.environ.get("VERIF_REPO", "/repo") + ":/verif/harness"}))
     if p.returncode != 0:
         raise RuntimeError(p.stderr[-2000:])
     return json.loads(p.stdout.strip().splitlines()[-1])
